@@ -83,7 +83,9 @@ RECEIVERS = {
     'null': ['null'],
     'array': ['[]', '[%s]' % N('1'), '[%s,%s,null]' % (N('1'), S('a')), '[[],[%s]]' % N('1'), '[%s,%s]' % (S('a'), S('b')),
               '[obj]', '[[[[]]]]', '[{}]', '[%s,%s,%s]' % (N('1'), N('2'), N('3'))],
-    'hashmap': ['{}', '{61=%s}' % N('1'), '{61=%s,62=[%s]}' % (N('1'), N('1')), '{61={62=%s}}' % N('1'), '{-=null}'],
+    'hashmap': ['{}', '{61=%s}' % N('1'), '{61=%s,62=[%s]}' % (N('1'), N('1')), '{61={62=%s}}' % N('1'), '{-=null}',
+                # a literal that names a key twice (NewHashMap keeps the first position and the last value)
+                '{61=%s,61=%s}' % (N('1'), N('2')), '{61=%s,62=null,61=[%s]}' % (N('1'), N('3'))],
     'object': ['obj', 'req', 'resp'],
     'class': ['cls', 'glob:' + '异常'.encode().hex(), 'reqcls', 'respcls'],
     'function': ['fn', 'glob:' + '显示'.encode().hex(), 'glob:' + '取随机数'.encode().hex()],
